@@ -517,7 +517,9 @@ class CFGrid2DTopology(CFGridTopology):
 
         # Discard cell coordinates where the cell is bound by nan on both sides.
         # This can occur when the grid tracks a river which might be only one cell wide.
-        coordinate_values = coordinate.values.copy()
+        # The coordinate may store its dimensions in the other order to the grid,
+        # such as lat(y, x) and lon(x, y).
+        coordinate_values = coordinate.transpose(self.y_dimension, self.x_dimension).values.copy()
         nan_coordinates = numpy.isnan(coordinate_values)
         j_pad = numpy.pad(nan_coordinates, ((1, 1), (0, 0)), constant_values=False)
         j_bound_by_nan = j_pad[:-2, :] & j_pad[2:, :]
